@@ -30,6 +30,14 @@ type mode struct {
 	corpus *index.Corpus
 }
 
+// noteName is the mode's category in the evidence ("corpus-staged@3" -> "corpus-staged").
+func (m mode) noteName() string {
+	if i := strings.IndexByte(m.name, '@'); i >= 0 {
+		return m.name[:i]
+	}
+	return m.name
+}
+
 type caseRec struct {
 	CaseID     string          `json:"case_id"`
 	World      string          `json:"world"`
@@ -43,7 +51,7 @@ type caseRec struct {
 }
 
 var sortNames = map[search.SortType]string{
-	search.UnspecifiedSort: "unspecified", search.Unsorted: "unsorted", search.LastModifiedDesc: "-mod",
+	search.UnspecifiedSort: "unspecified", search.Unsorted: "unsorted", search.LastModifiedDesc: "-mod", search.MapSort: "map",
 	search.LastModifiedAsc: "mod", search.CreatedDesc: "-created", search.CreatedAsc: "created", search.BlobRefAsc: "blobref",
 }
 
@@ -57,7 +65,7 @@ var (
 // MainC08 is the entry point of the C08 check.
 func MainC08() {
 	ev.Main("C08", "exploration",
-		"generated worlds (permanodes with tag/title/camliNodeType/camliDefVis/camliContent/camliMember/camliPath/numeric attributes, deleted and claim-less permanodes, files with names/sizes/mtimes/wholeRefs, nested directories with shared children, plain blobs) x generated constraint trees (depth<=4) over the supported fragment x every sort x limits x index modes {classic, corpus scanned, corpus incremental}; each result is compared with a reference evaluator (set equality at limit -1, order by the documented key, valid first-N) ; distinct = (world, constraint, sort, limit, mode); non-trivial = the reference match set is neither empty nor everything",
+		"generated worlds (permanodes with tag/title/camliNodeType/camliDefVis/camliContent/camliMember/camliPath/numeric attributes, values added repeatedly and then removed, sets with several multi-tagged members, deleted and claim-less permanodes, files with names/sizes/mtimes/wholeRefs incl. two files of one content, nested directories with shared children, plain blobs) x generated constraint trees (depth<=4, nodes with one or several fields set, valueInSet over logical sub-trees, `at` instants at value removals) over the supported fragment x every sort (incl. map) x limits {-1,1,3,0,|M|,|M|-1,|M|+1} x index modes {classic, corpus scanned, corpus incremental, corpus staged = the world delivered in 5 stages with the same queries after every stage, claims often before the file they name and stages without any claim}; each result is compared with a reference evaluator over what has been delivered (set equality at limit -1, order by the documented key, valid first-N) ; distinct = (world, constraint, sort, limit, mode[@stage]); non-trivial = the reference match set is neither empty nor everything",
 		run)
 }
 
@@ -70,7 +78,7 @@ func run(r *ev.Run) {
 	search.VerifSetCandSourceHook(func(name string) { curPlanner = name })
 
 	nWorlds := r.Pick(14, 80)
-	nCons := r.Pick(300, 800)
+	nCons := r.Pick(400, 900)
 	wrng := r.Rand("worlds")
 	for wi := 0; wi < nWorlds; wi++ {
 		label := fmt.Sprintf("w%d", wi)
@@ -140,12 +148,21 @@ func run(r *ev.Run) {
 			c := gc.classicTree(1 + gc.rng.Intn(3))
 			checkClassic(r, w, wid, ci, c, modes[2])
 		}
+		// the same world delivered in stages to one live corpus, queries interleaved with indexing
+		runStagedC08(r, w, wid, label, r.Pick(40, 60))
 		r.Count("worlds", 1)
 		r.Count("world_blobs", len(w.blobs))
+		for k, n := range w.features {
+			r.Count("feature:"+k, n)
+			r.Note("world_features", k)
+		}
 	}
+	r.Require("world_features", "repeated-value-then-del/tag", "repeated-value-then-del/camliMember", "multi-member-set", "shared-wholeref", "multi-field/constraint", "multi-field/permanode", "multi-field/file", "multi-field/dir")
+	r.Require("staged", "stage-without-claims", "late-file-changes-created-time", "content-claim-before-file", "file-indexing-postponed-on-chunk")
+	r.Require("limits", "unlimited", "cuts", "default", "equals-matches", "matches-minus-1", "beyond-matches")
 	r.Require("planner_paths", "corpus_permanode_created", "corpus_permanode_lastmod", "corpus_permanode_types", "one_blob", "corpus_file_meta", "corpus_blob_meta", "index_blob_meta")
-	r.Require("modes", "corpus-incremental", "corpus-scanned", "classic")
-	r.Require("outcomes", "exact-set", "ordered", "first-n", "refusal", "empty-match", "nonempty-match")
+	r.Require("modes", "corpus-incremental", "corpus-scanned", "classic", "corpus-staged")
+	r.Require("outcomes", "exact-set", "ordered", "first-n", "refusal", "refusal-timeless-match", "map-sort", "empty-match", "nonempty-match")
 }
 
 func buildModes(w *sworld) ([]mode, error) {
@@ -240,15 +257,24 @@ func checkConstraint(r *ev.Run, w *sworld, wid string, ci int, c *search.Constra
 	if ci%10 == 0 {
 		sorts = append(sorts, search.LastModifiedAsc)
 	}
-	limits := []int{-1, 1, 3}
+	if ci%5 == 1 {
+		sorts = append(sorts, search.MapSort)
+	}
 	for _, m := range modes {
 		for _, st := range sorts {
-			for _, lim := range limits {
-				if lim != -1 && (ci+int(st))%2 == 1 {
-					continue // half of the (sort, limit>0) combinations per constraint
+			// limits: always unlimited; for half of the (constraint, sort) combinations also 1, 3 and
+			// one of the boundary limits {0 (= the documented default of 200), |M|, |M|-1, |M|+1}
+			limits := []int{-1}
+			if (ci+int(st))%2 == 0 {
+				limits = append(limits, 1, 3)
+				if x := []int{0, len(M), len(M) - 1, len(M) + 1}[(ci/2+int(st))%4]; x >= 0 && x != 1 && x != 3 {
+					limits = append(limits, x)
 				}
+			}
+			for _, lim := range limits {
 				r.Eval(1)
-				r.Note("modes", m.name)
+				r.Note("modes", m.noteName())
+				noteLimit(r, lim, len(M))
 				got, planner, err, pan := query(m, c, st, lim)
 				rec := caseRec{CaseID: wid, World: wid, Constraint: cj, Sort: sortNames[st], Limit: lim, Mode: m.name, Planner: planner, Want: refStrings(M), Got: refStrings(got)}
 				if planner != "" {
@@ -276,6 +302,9 @@ func judge(r *ev.Run, w *sworld, wid string, c *search.Constraint, cj []byte, st
 		eff = search.CreatedDesc // documented default for permanode-only queries
 	}
 	shape := shapeOf(c)
+	if lim == 0 {
+		lim = 200 // "If unspecified, a default (of 200) will be used"
+	}
 	if err != nil {
 		ok := false
 		switch {
@@ -284,7 +313,18 @@ func judge(r *ev.Run, w *sworld, wid string, c *search.Constraint, cj []byte, st
 		case (eff == search.CreatedDesc || eff == search.CreatedAsc || eff == search.LastModifiedDesc) && !pnOnly:
 			ok = true
 		case eff == search.CreatedAsc && strings.Contains(err.Error(), "no ctime or modtime"):
-			ok = true // a matched permanode has no time at all
+			// justified only if some matched permanode has no time at all
+			for _, b := range M {
+				if _, has := w.anyTime(b); !has {
+					ok = true
+					break
+				}
+			}
+			if !ok {
+				r.Violation("unjustified-refusal/created/"+shape, fmt.Sprintf("%s [%s]: sort=created is refused with %q although every one of the %d matches has a time (constraint %s)", wid, modeName, err, len(M), cj), rec)
+				return
+			}
+			r.Note("outcomes", "refusal-timeless-match")
 		case strings.Contains(err.Error(), "[Recursive]Contains constraint should have"):
 			ok = false
 		}
@@ -300,6 +340,9 @@ func judge(r *ev.Run, w *sworld, wid string, c *search.Constraint, cj []byte, st
 		// possible for sorted sources, which do not exist for it
 		r.Violation("unsupported-sort-answered", fmt.Sprintf("%s: sort=mod returned %d results instead of a refusal", wid, len(got)), rec)
 		return
+	}
+	if st == search.MapSort {
+		r.Note("outcomes", "map-sort")
 	}
 	// no duplicates, subset of M
 	seen := map[blob.Ref]bool{}
@@ -363,6 +406,11 @@ func judge(r *ev.Run, w *sworld, wid string, c *search.Constraint, cj []byte, st
 		n := len(want)
 		if lim > 0 && lim < n {
 			n = lim
+			if st == search.MapSort {
+				// a limited map result is "optimized for rendering on a map": which matches are kept
+				// is not pinned down by the docs; subset-of-M and no-duplicates were judged above
+				return true, ""
+			}
 		}
 		if len(got) != n {
 			return false, fmt.Sprintf("returned %d results, want %d", len(got), n)
@@ -431,6 +479,25 @@ func judge(r *ev.Run, w *sworld, wid string, c *search.Constraint, cj []byte, st
 		class = "order"
 	}
 	r.Violation(class+"/"+planner+"/"+shape, fmt.Sprintf("%s [%s]: %s (constraint %s, sort %s→%s, limit %d, planner %s; reference has %d matches)", wid, modeName, why, cj, sortNames[st], sortNames[eff], lim, planner, len(M)), rec)
+}
+
+func noteLimit(r *ev.Run, lim, n int) {
+	switch {
+	case lim == -1:
+		r.Note("limits", "unlimited")
+	case lim == 0 && n > 200:
+		r.Note("limits", "default-200-cuts")
+	case lim == 0:
+		r.Note("limits", "default")
+	case lim == n:
+		r.Note("limits", "equals-matches")
+	case lim == n-1:
+		r.Note("limits", "matches-minus-1")
+	case lim > n:
+		r.Note("limits", "beyond-matches")
+	default:
+		r.Note("limits", "cuts")
+	}
 }
 
 func noteOutcome(r *ev.Run, eff search.SortType, lim int) {
@@ -505,6 +572,8 @@ func checkClassic(r *ev.Run, w *sworld, wid string, ci int, c *search.Constraint
 	cj, _ := json.Marshal(c)
 	var M []blob.Ref
 	inM := map[blob.Ref]bool{}
+	w.distinctCount = true
+	defer func() { w.distinctCount = false }()
 	for _, b := range w.allRefs {
 		if w.eval(c, b) {
 			M = append(M, b)
